@@ -270,6 +270,12 @@ class HeapOps:
             return VRef(I(0), "NoneType")
         if isinstance(value, VPy) and value.obj == ("emptylist",):
             return self.new_list([])
+        if isinstance(value, VTuple) and 1 <= len(value.items) <= 3 and all(isinstance(self.ev.lift(x), (VRef, VNone)) for x in value.items):
+            # a tuple of references stored in a list / dict: boxed as a heap object with fields t0..t2
+            r = self.alloc("tuple")
+            for k, x in enumerate(value.items):
+                self.h[f"t{k}"] = z3.Store(self.h[f"t{k}"], r.t, self.as_ref(self.ev.lift(x), node).t)
+            return r
         if isinstance(value, (VStr, VInt, VBool, VSeq, VTuple, VOpaque, VStrJoin, VObj, VRec)) or \
                 (isinstance(value, VPy) and not (isinstance(value.obj, tuple) and value.obj[:1] == ("emptylist",))):
             # boxed python value: a fresh opaque heap object (its payload is not modelled)
@@ -312,8 +318,10 @@ class HeapOps:
             return self.dict_get(base, idx, node)
         if not isinstance(idx, VInt):
             self._no(node, "list index of non-int")
-        n = self.llen(base)
         s = z3.simplify(idx.t)
+        if z3.is_int_value(s) and 0 <= s.as_long() <= 2 and (base.cls == "tuple" or base.cls is None and self.path.entails_quick(self.tag_in(base.t, "tuple"))):
+            return self.getattr(VRef(base.t, "tuple"), f"t{s.as_long()}", node)
+        n = self.llen(base)
         if self.ev.pure and not (z3.is_int_value(s) and s.as_long() < 0):
             return self.elem_read(base, s)
         if z3.is_int_value(s) and s.as_long() < 0:
